@@ -57,7 +57,7 @@ CHECKS = {
  "C14": dict(
    category="fault_enumeration", design_ref="5.C14",
    technique="deterministic simulation with fault injection on stored module text (torn/edited files) through the whole front-end pipeline; out-of-process stack-overflow/hang detection; fault-point enumeration",
-   text="Stored module text (zoo modules, a hand-written corpus covering the README constructs, every inline module of /repo/tests) receives 1-4 storage faults (torn file, char loss/insertion, token deletion/duplication/swap/insertion/replacement incl. reference-name and import-module-name typos, number replacement) or is a token soup, alone or as a 2-3 module scope, and is pushed through Tokenizer -> Model::try_from -> try_resolve / try_resolve_all -> to_rust / to_rust_with_scope -> to_protobuf. Oracle: no panic except the sanctioned unclosed-comment one, no abort / stack overflow / hang (child processes + watchdog). A share of the runs enumerates every truncation point, single-token deletion and adjacent swap of one module.",
+   text="Stored module text (zoo modules, a hand-written corpus covering the README constructs, every inline module of /repo/tests) receives 1-4 storage faults (torn file, char loss/insertion, token deletion/duplication/swap/insertion/replacement incl. reference-name and import-module-name typos, number replacement), is a token soup, or gets a definition nested 2..40 000 levels deep in six forms (T-NEST), alone or as a 2-3 module scope, and is pushed through Tokenizer -> Model::try_from -> try_resolve / try_resolve_all -> to_rust / to_rust_with_scope -> to_protobuf. Oracle: no panic except the sanctioned unclosed-comment one, no abort / stack overflow / hang (child processes + watchdog). A share of the runs enumerates every truncation point, single-token deletion and adjacent swap of one module.",
    note="Trusted: harness text-fault process. Not checked: whether an edited module is accepted or rejected, error contents, code generation."),
  "C17": dict(
    category="exploration", design_ref="5.C17",
